@@ -40,10 +40,15 @@ AddCases(z)      == {Case("add", d, 0, l) : d \in (0 - (2 * gG + 1))..gG, l \in 
                     \cup {Case("add", d, 0, MoveLeft(l, (gG + 1) \div 2)) : d \in (0 - gG)..gG, l \in Lists(gG, gN, gNT) \ {<<>>}}
 AddInvCases(z)   == {Case("add+addinv", d, 0, l) : d \in ((0 - (2 * gG + 1))..gG) \ {0}, l \in Lists(gG, gN, gNT)}
 FragmentCases(z) == {Case("fragment", f, 0, l) : f \in 1..((gG + 1) \div 2), l \in SortedLists(gG, gN, gNT)}
+                    \* cues before zero, on and off the multiples of the period
+                    \cup {Case("fragment", f, 0, MoveLeft(l, k)) : f \in 2..((gG + 1) \div 2), k \in {gG - 1, gG},
+                           l \in SortedLists(gG, gN, gNT) \ {<<>>}}
 UnfragCases(z) == {Case("unfragment", 0, 0, l) : l \in Lists(gG, gN, gNT)}
 FragUnfragCases(z) == {Case("fragment+unfragment", f, 0, l) : f \in 1..((gG + 1) \div 2),
                       l \in {x \in SortedLists(gG, gN, gNT) : NoSameTextTouch(x)}}
-OrderCases(z)    == {Case("order", 0, 0, l) : l \in Lists(gG, gN, gNT)}
+\* the cues' own numbers (Item.Index) need not follow the list order
+RevIds(l) == [i \in DOMAIN l |-> [l[i] EXCEPT !.id = Len(l) + 1 - i, !.ptr = Len(l) + 1 - i]]
+OrderCases(z)    == {Case("order", 0, 0, l) : l \in Lists(gG, gN, gNT)} \cup {Case("order", 0, 0, RevIds(l)) : l \in Lists(gG, gN, gNT)}
 \* a genuine cue may look like the filler (one unit long, the placeholder text): it is a cue like any other
 LooksLikeFiller(l) == [l EXCEPT ![Len(l)].t = FillerText]
 ForceCases(z)    == {Case("force", d, fl, l) : d \in 1..(gG + 2), fl \in {0, 1}, l \in ForceLists(gG, gN, gNT)}
@@ -63,6 +68,15 @@ MergeCases(z) ==
               styles |-> sb, regions |-> EmptyMap, snil |-> FALSE, rnil |-> FALSE]] :
      A \in Lists(gG, gN, 1), B \in UNION {ListsN(n, gG, 1) : n \in 0..gN},
      sa \in IdMaps("A"), sb \in IdMaps("B") \cup ForeignKeyMaps("B"), nilA \in {0, 1}}
+  \* a region of the argument refers to a style whose identifier both lists define; cue numbers against the list order
+  \cup {[op |-> "merge", a |-> 0, b |-> 0,
+         pre  |-> [items |-> A, styles |-> ("a" :> [id |-> "a", parent |-> "", tag |-> "A"]), regions |-> ra, snil |-> FALSE, rnil |-> FALSE],
+         pre2 |-> [items |-> MapSeq(RevIds(B), LAMBDA c : [c EXCEPT !.id = c.id + 10, !.ptr = c.ptr + 10]),
+                   styles |-> ("a" :> [id |-> "a", parent |-> "", tag |-> "B"]) @@ ("b" :> [id |-> "b", parent |-> "a", tag |-> "B"]),
+                   regions |-> ("rb" :> [id |-> "rb", parent |-> "a", tag |-> "B"]) @@ rb, snil |-> FALSE, rnil |-> FALSE]] :
+        A \in {RevIds(x) : x \in Lists(gG, gN, 1)}, B \in UNION {ListsN(n, gG, 1) : n \in 1..gN},
+        ra \in {EmptyMap, ("ra" :> [id |-> "ra", parent |-> "a", tag |-> "A"])},
+        rb \in {EmptyMap, ("ra" :> [id |-> "ra", parent |-> "", tag |-> "B"])}}
 
 \* Optimize / RemoveStyling: reference graphs (partitioned on the style map)
 StyleMapSeq == SetToSeq(StyleMaps)
